@@ -12,6 +12,14 @@ OutDiag(out) == IF IsUbOut(out) THEN "ub" ELSE IF out = "timeout" THEN "timeout"
                 ELSE IF out = "ok" THEN "ok" ELSE "unexpected_signal"
 
 NonNeg(x) == IF x > 0 THEN x ELSE 0
+\* |mn / md| rounded to nearest-even at p bits: <<odd mantissa, exponent>>; mn, md > 0 (quotient with two guard bits and a sticky bit)
+RNEQuotS(mn, md, p) ==
+    LET k0 == p + 2 + BitLen(md) - BitLen(mn)
+        k == IF k0 < 0 THEN 0 ELSE k0
+        num == Shl(mn, k)
+        qq == FloorDiv(num, md)
+        sticky == IF Mul(qq, md) = num THEN 0 ELSE 1
+    IN RNE(Add(MulSmall(qq, 2), FromInt(sticky)), -k - 1, p)
 RadixOK(lt, rt) == RadixOf(lt) = 0 \/ RadixOf(rt) = 0 \/ RadixOf(lt) = RadixOf(rt)
 CommonRadix(lt, rt) == IF RadixOf(lt) # 0 THEN RadixOf(lt) ELSE IF RadixOf(rt) # 0 THEN RadixOf(rt) ELSE 2
 ExpectedExp(op, el, er) == CASE op \in {"add", "sub"} -> MinI(el, er) [] op = "mul" -> el + er
@@ -174,13 +182,30 @@ JudgeScConv(e, i) ==
                            ELSE Le(Mul(RawMin(dt), PowSmall(rdx, ed - es)), a) /\ Le(a, Mul(RawMax(dt), PowSmall(rdx, ed - es)))
                  \* known deviation class: the scaling is computed in the SOURCE representation before the cast
                  srcOv == es > ed /\ ~AlignFits(x, st)
-                 cls2 == ScCls(e, i, IF srcOv THEN "scaled_in_source_rep_overflows" ELSE "")
+                 \* the scale factor radix^|es - ed| itself does not fit the promoted SOURCE representation (the shift count
+                 \* reaches its width / the power overflows whatever the value is)
+                 factorOv == es # ed /\ ~Widening(st) /\ ~InT(PowSmall(rdx, IF es > ed THEN es - ed ELSE ed - es), Promote(AsIntT(InnerT(st))))
+                 cls2 == ScCls(e, i, IF srcOv THEN "scaled_in_source_rep_overflows"
+                                     ELSE IF factorOv THEN "scale_factor_exceeds_source_rep" ELSE "")
              IN IF ~InRaw(a, st) THEN [d |-> "bad_event", nt |-> FALSE, cls |-> cls]
                 ELSE IF ~inDest THEN [d |-> "skip", nt |-> FALSE, cls |-> cls]
                 ELSE [d |-> (IF e.out # "ok" THEN OutDiag(e.out) ELSE IF J(e.res) = x THEN "ok" ELSE "wrong_value"),
                       nt |-> es # ed, cls |-> cls2]
     ELSE IF st.k = "float" /\ dt.k # "float" THEN
-        IF RadixOf(dt) \notin {0, 2} \/ e.l.c # "fin" THEN [d |-> "skip", nt |-> FALSE, cls |-> cls]
+        IF e.l.c # "fin" THEN [d |-> "skip", nt |-> FALSE, cls |-> cls]
+        ELSE IF RadixOf(dt) \notin {0, 2} THEN
+            \* a radix that is not 2: x = M * 2^fe as a multiple of r^ed, truncated toward zero (exact rational arithmetic)
+            LET m == FMag(e.l)  fe == e.l.e  ed == ExpOf(dt)  r == RadixOf(dt)
+                num == Mul(Shl(m, NonNeg(fe)), PowSmall(r, NonNeg(-ed)))
+                den == Mul(Pow2(NonNeg(-fe)), PowSmall(r, NonNeg(ed)))
+                mag == TruncDiv(num, den)
+                x == IF e.l.n = 1 THEN Neg(mag) ELSE mag
+                snum == IF e.l.n = 1 THEN Neg(num) ELSE num
+                inDest == Le(Mul(RawMin(dt), den), snum) /\ Le(snum, Mul(RawMax(dt), den))
+                cls3 == ScCls(e, i, "decimal_float")
+            IN IF fe > 300 \/ fe < -1200 \/ ~inDest THEN [d |-> "skip", nt |-> FALSE, cls |-> cls3]
+               ELSE [d |-> (IF e.out # "ok" THEN OutDiag(e.out) ELSE IF J(e.res) = x THEN "ok" ELSE "wrong_value"),
+                     nt |-> TRUE, cls |-> cls3]
         ELSE LET m == FMag(e.l)  fe == e.l.e  ed == ExpOf(dt)
                  mag == IF fe >= ed THEN Shl(m, fe - ed) ELSE ShrTrunc(m, ed - fe)
                  x == IF e.l.n = 1 THEN Neg(mag) ELSE mag
@@ -188,7 +213,20 @@ JudgeScConv(e, i) ==
                 ELSE [d |-> (IF e.out # "ok" THEN OutDiag(e.out) ELSE IF J(e.res) = x THEN "ok" ELSE "wrong_value"),
                       nt |-> fe < ed, cls |-> cls]
     ELSE IF st.k # "float" /\ dt.k = "float" THEN
-        IF RadixOf(st) \notin {0, 2} THEN [d |-> "skip", nt |-> FALSE, cls |-> cls]
+        IF RadixOf(st) \notin {0, 2} THEN
+            \* a radix that is not 2: a * r^es correctly rounded (nearest even) -- an integer for es >= 0, else the rational a / r^-es
+            LET a == J(e.l)  es == ExpOf(st)  p == dt.p  r == RadixOf(st)
+                want == IF IsZero(a) THEN <<Zero, 0>>
+                        ELSE IF es >= 0 THEN RNE(Mul(Abs(a), PowSmall(r, es)), 0, p)
+                        ELSE RNEQuotS(Abs(a), PowSmall(r, -es), p)
+                top == BitLen(want[1]) + want[2]
+                cls3 == ScCls(e, i, "decimal_float")
+            IN IF ~InRaw(a, st) THEN [d |-> "bad_event", nt |-> FALSE, cls |-> cls3]
+               ELSE IF ~IsZero(a) /\ (top > FloatEmax(p) - 2 \/ top - 1 < FloatEminNormal(p) + 2) THEN [d |-> "skip", nt |-> FALSE, cls |-> cls3]
+               ELSE [d |-> (IF e.out # "ok" THEN OutDiag(e.out)
+                            ELSE IF e.res.c = "fin" /\ NormDyadic(FMag(e.res), e.res.e) = want
+                                    /\ (IsZero(a) \/ (e.res.n = 1) = a.n) THEN "ok" ELSE "wrong_value"),
+                     nt |-> TRUE, cls |-> cls3]
         ELSE LET a == J(e.l)  es == ExpOf(st)  p == dt.p
                  want == RNE(Abs(a), es, p)
                  top == BitLen(want[1]) + want[2]      \* value < 2^top
